@@ -124,3 +124,37 @@ Proof.
   replace (0 + rm_total m) with (rm_total m) by lia.
   apply page_sums_fill; [exact H2|exact H1|right; reflexivity].
 Qed.
+
+(* check_assign is a complete specification: when every row occupies at least one line, the only page list it accepts
+   is the greedy loop's *)
+Lemma check_assign_from_unique avail np ms : forall pages page cur,
+  0 < cur -> Forall (fun m => 0 < rm_total m) ms ->
+  check_assign_from avail np ms pages page cur = true ->
+  pages = assign_loop avail np ms false page cur.
+Proof.
+  induction ms as [|m ms IH]; intros pages page cur Hc Hpos H; destruct pages as [|p ps]; cbn [check_assign_from] in H;
+    try discriminate; [reflexivity|].
+  inversion Hpos as [|? ? Hm Hms]; subst. cbn [assign_loop negb]. rewrite !andb_true_r.
+  set (force := rm_ss m || np && rm_gs m) in *.
+  set (over := avail <? cur + rm_total m) in *.
+  assert (Hcur : (0 <? cur) = true) by (apply Z.ltb_lt; exact Hc). rewrite Hcur in *. rewrite andb_true_r in *.
+  destruct (p =? page) eqn:Ep.
+  - apply Z.eqb_eq in Ep; subst p. apply andb_prop in H as [H1 H2]. apply negb_true_iff in H1. rewrite H1.
+    f_equal. apply IH; [lia|exact Hms|exact H2].
+  - apply andb_prop in H as [H1 H2]. apply andb_prop in H1 as [H0 H1]. apply Z.eqb_eq in H0; subst p. rewrite H1.
+    f_equal. replace (0 + rm_total m) with (rm_total m) by lia. apply IH; [exact Hm|exact Hms|exact H2].
+Qed.
+
+Theorem check_assign_unique nrow add np ms pages :
+  Forall (fun m => 0 < rm_total m) ms ->
+  check_assign (Z.max 1 (nrow - add)) np ms pages = true ->
+  pages = assign_pages nrow add np ms.
+Proof.
+  intros Hpos H. unfold check_assign in H. unfold assign_pages.
+  destruct ms as [|m ms]; destruct pages as [|p ps]; try discriminate; [reflexivity|].
+  inversion Hpos as [|? ? Hm Hms]; subst.
+  apply andb_prop in H as [H0 H]. apply Z.eqb_eq in H0; subst p.
+  cbn [assign_loop]. replace (0 <? 0) with false by reflexivity. rewrite andb_false_r. f_equal.
+  replace (0 + rm_total m) with (rm_total m) by lia.
+  apply check_assign_from_unique; assumption.
+Qed.
